@@ -433,7 +433,8 @@ class PackageGenerator:
                     if self.f("DOC_TYPE_MISMATCH") and r.random() < 0.5:
                         # the docstring states another type than the hint (or a type where there is no hint)
                         t = r.choice(["str", "int", "float", "bool", "list[int]", "dict[str, float]", "tuple[int, str]", "set[str]", "list[str]",
-                                      "int | str | float", "Optional[int]", "Union[int, str, bool]", "float | int | None"])
+                                      "int | str | float", "Optional[int]", "Union[int, str, bool]", "float | int | None",
+                                      "int | float | int | None", "int or str or int or None", "list[int] or list[int] or str"])
                     ptok = self.tokens.new("P", fq, pn)
                     ptext = f"About {ptok}."
                     if r.random() < 0.25:
@@ -476,6 +477,9 @@ class PackageGenerator:
         cq = f"{owner_q or mod.qname}.{name}"
         self.probes.setdefault("classes", []).append(cq)
         bases = bases or []
+        if not bases and r.random() < 0.12:
+            mod.add_import("from abc import ABC")
+            bases = ["ABC"]  # an abstract class: rendered without constructor signature, but documented like any other
         head = f"{indent}class {name}({', '.join(bases)}):" if bases else f"{indent}class {name}:"
         lines = [head]
         inner = indent + "    "
